@@ -473,6 +473,9 @@ theorem and_operand_hull_raw (b L U : α) (pre post : List (Opd α)) (o : Opd α
 theorem negB_negB (a : Bounds α) : negB (negB a) = a := by
   cases a; simp [negB]
 
+@[simp] theorem negB_lo (a : Bounds α) : (negB a).lo = 1 - a.hi := rfl
+@[simp] theorem negB_hi (a : Bounds α) : (negB a).hi = 1 - a.lo := rfl
+
 theorem aggregate_negB (a p : Bounds α) :
     (aggregate .both (negB a) (negB p)).1 = negB (aggregate .both a p).1 := by
   simp only [aggregate, negB, reduceCtorEq, if_false, max_sub_sub_left, min_sub_sub_left,
